@@ -337,6 +337,125 @@ def ob_mixture():
     return out
 
 
+def _key_dists():
+    import jax.numpy as jnp
+    import jax.random as jr
+    import equinox as eqx
+    import flowjax.distributions as fd
+    import flowjax.bijections as fb
+    from flowjax import flows
+    D = {nm: mk for nm, (mk, _) in _fam().items()}
+    D["VmapMixture(Normal x2)"] = lambda: fd.VmapMixture(eqx.filter_vmap(fd.Normal)(jnp.array([0.0, 1.5]), jnp.array([1.0, 0.6])), jnp.array([1.0, 3.0]))
+    D["VmapMixture(Laplace x3, event (2,))"] = lambda: fd.VmapMixture(eqx.filter_vmap(lambda l: fd.Laplace(l, jnp.ones(2)))(jnp.arange(6.0).reshape(3, 2)), jnp.array([1.0, 2.0, 3.0]))
+    D["Transformed(StudentT, Affine)"] = lambda: fd.Transformed(fd.StudentT(jnp.array([3.0]), jnp.array([0.3]), jnp.array([1.5])), fb.Affine(jnp.array([0.5]), jnp.array([2.0])))
+    D["coupling_flow(cond)"] = lambda: flows.coupling_flow(jr.PRNGKey(0), base_dist=fd.StandardNormal((2,)), cond_dim=1, flow_layers=1, nn_width=2)
+    return D
+
+
+def ob_keys(names):
+    """sampler key hygiene (a necessary condition for 'samples follow the density'): within one call of sample / sample_and_log_prob no PRNG key
+    is consumed by two different draws or both drawn from and split - decided on the symbolic interpretation (keys are uninterpreted terms,
+    derived keys from different split slots are different terms), for an arbitrary user key"""
+    import jax
+    jax.config.update("jax_enable_x64", True)
+    import jax.numpy as jnp
+    import jax.random as jr
+    from .. import jx
+    from ..jx import Ctx, Interp, set_path
+    from ..sym import symarr, trace
+    out = []
+    D = _key_dists()
+    for nm in names:
+        d = D[nm]()
+        key = symarr("k", (2,), z3.IntSort())
+        cex = [] if d.cond_shape is None else [jnp.zeros(d.cond_shape)]
+        for meth, f in (("sample(key, (2,))", lambda k, *cc: d.sample(k, (2,), *cc)), ("sample_and_log_prob(key)", lambda k, *cc: d.sample_and_log_prob(k, (), *cc))):
+            name = f"C05/{nm}.{meth}: no PRNG key is consumed twice (every draw and every split uses its own derived key)"
+            ctx = Ctx()
+            I = Interp(ctx)
+            set_path([], ctx.facts)
+            try:
+                I.run(trace(f, jr.PRNGKey(0), *cex), key, *[jx.oarr(np.asarray(x)) for x in cex])
+            except jx.Unsupported as e:
+                set_path(None)
+                out.append(rec(name, "error", detail=f"unsupported: {e}"))
+                continue
+            set_path(None)
+            dup = jx.reused_keys(ctx)
+            if not dup:
+                out.append(rec(name, "discharged", nontrivial=len(ctx.key_uses) > 1, detail=f"{len(ctx.key_uses)} key consumptions, pairwise distinct key terms"))
+            else:
+                ok, msg = replay_keys(nm)
+                out.append(rec(name, "violation" if ok else "inconclusive", detail=f"key term {dup[0][2]},{dup[0][3]} is consumed by {dup[0][0]} and again by {dup[0][1]} | {msg}",
+                               replay=dict(func="c05:replay_keys", kwargs=dict(nm=nm))))
+    return out
+
+
+def replay_keys(nm):
+    """the REAL traced sampler executed concretely, equation by equation with JAX's own primitive implementations (jit wrappers entered), recording
+    the key data handed to every random_bits / random_split: the same concrete key reaching two different applications is a reuse"""
+    import jax
+    import jax.numpy as jnp
+    import jax.random as jr
+    d = _key_dists()[nm]()
+    cex = [] if d.cond_shape is None else [jnp.zeros(d.cond_shape)]
+    bad = []
+    for meth, f in (("sample", lambda k, *cc: d.sample(k, (2,), *cc)), ("sample_and_log_prob", lambda k, *cc: d.sample_and_log_prob(k, (), *cc))):
+        for s_ in range(2):
+            k = jr.key(s_) if hasattr(jr, "key") else jr.PRNGKey(s_)
+            k = jr.PRNGKey(s_)
+            closed = jax.make_jaxpr(f)(k, *cex)
+            uses = []
+
+            def run(jaxpr, consts, *args):
+                env = {}
+
+                def read(v):
+                    return v.val if hasattr(v, "val") else env[v]
+                for v, c in zip(jaxpr.constvars, consts):
+                    env[v] = c
+                for v, a in zip(jaxpr.invars, args):
+                    env[v] = a
+                for e in jaxpr.eqns:
+                    ins = [read(v) for v in e.invars]
+                    pn = e.primitive.name
+                    if pn == "custom_jvp_call" and "call_jaxpr" in e.params:
+                        cj = e.params["call_jaxpr"]
+                        outs = run(cj.jaxpr, cj.consts, *ins)
+                        for v, o in zip(e.outvars, outs):
+                            env[v] = o
+                        continue
+                    if pn in ("jit", "pjit", "closed_call") and "jaxpr" in e.params:
+                        cj = e.params["jaxpr"]
+                        outs = run(cj.jaxpr, cj.consts, *ins)
+                    else:
+                        if pn in ("random_bits", "random_split"):
+                            kd = np.asarray(jr.key_data(ins[0]) if jnp.issubdtype(ins[0].dtype, jax.dtypes.prng_key) else ins[0]).reshape(-1, 2)
+                            for row in kd:
+                                uses.append((pn, id(e), tuple(int(q) for q in row)))
+                        bp = e.primitive.get_bind_params(e.params)
+                        if isinstance(bp, tuple):      # older JAX: (subfuns, params)
+                            outs = e.primitive.bind(*bp[0], *ins, **bp[1])
+                        else:
+                            outs = e.primitive.bind(*ins, **bp)
+                        if not e.primitive.multiple_results:
+                            outs = [outs]
+                    for v, o in zip(e.outvars, outs):
+                        env[v] = o
+                return [read(v) for v in jaxpr.outvars]
+            try:
+                run(closed.jaxpr, closed.consts, k, *cex)
+            except Exception as e:  # noqa
+                return False, f"concrete evaluation failed: {type(e).__name__}: {str(e)[:150]}"
+            seen = {}
+            for pn, eid, kd in uses:
+                if kd in seen and seen[kd] != eid:
+                    bad.append(f"{meth} with PRNGKey({s_}): key data {kd} reaches two different random primitive applications")
+                    break
+                seen.setdefault(kd, eid)
+    return bool(bad), "; ".join(bad[:2]) or "every key is consumed once in the concrete execution of the real sampler"
+
+
 def ob_accessors():
     """'their parameter accessors return what the constructor was given': the constructor round trips of C11 (raw parameterisation, exp overflow
     modelled), reported under C05 as well"""
@@ -349,6 +468,11 @@ def ob_accessors():
     return out
 
 
+def _chunks(xs, n):
+    return [xs[i:i + n] for i in range(0, len(xs), n)]
+
+
 def obligations(tier, seed):
     names = ["Normal", "Normal()", "Normal(bcast)", "LogNormal", "Uniform", "Gumbel", "Cauchy", "StudentT", "Laplace", "Exponential", "Logistic", "MultivariateNormal"]
-    return [dict(name=n, func="c05:ob_family", kwargs=dict(name=n), cost=3, replay=dict(func="c05:replay_family", kwargs=dict(name=n))) for n in names] + [dict(name="mixture", func="c05:ob_mixture", kwargs={}, cost=5), dict(name="accessors", func="c05:ob_accessors", kwargs={}, cost=5)]
+    return [dict(name=n, func="c05:ob_family", kwargs=dict(name=n), cost=3, replay=dict(func="c05:replay_family", kwargs=dict(name=n))) for n in names] + [dict(name="mixture", func="c05:ob_mixture", kwargs={}, cost=5), dict(name="accessors", func="c05:ob_accessors", kwargs={}, cost=5)] + \
+        [dict(name=f"keys/{i}", func="c05:ob_keys", kwargs=dict(names=chunk), cost=4) for i, chunk in enumerate(_chunks(list(_key_dists()), 4))]
